@@ -64,6 +64,20 @@ chk("C18","operation-sequence exploration (E3): every `info pv` line of every se
     "All principal variations printed during the C06 exploration (~370k non-empty lines quick), including those reconstructed from entries left by other searches, must be playable move by move on the reference model.",
     SRCH, "5/C18", "E3")
 
+E5 = "real uci_talk + search + timer threads on OS threads serialised by a baton scheduler at the hooked schedule points (H2/H3); sequentially consistent interleavings; virtual time"
+chk("C13","exhaustive input enumeration (E6): full Cartesian boundary grid G^4 x side and movetime grids through the real command_go in two build flavours; preemption-bounded schedule exploration (E5) of timed scripts",
+    "Every (wtime, btime, winc, binc) in G^4 (|G| = 12 quick / 22 thorough) for either side, every movetime alone / with depth / with infinite / with every clock: the budget handed to the timer equals `info time`, is <= the mover's clock resp. the movetime, no go kills the engine (checked and release-semantics builds), monotone in the clock; timed scripts under all interleavings: after the timer fired the search enters at most one more node.",
+    E5+"; wall-clock latency not modelled", "5/C13", "E5+E6")
+chk("C14","stateless preemption-bounded schedule exploration (CHESS-style, E5) of the real UCI threads: all words of length <= 3 (4) over a 9-command alphabet, eager and reactive GUI, all interleavings with <= 2 (3) deviations",
+    "1600 scripts (quick) x every schedule within the deviation bound (~190k executions): no panic, no deadlock, every isready answered, bestmove count never exceeds accepted go, every due go answered exactly once with a move legal in the position it was asked about, a position/go sent after all earlier go were answered is never refused, no search left running with nothing to stop it; failing schedules are replayed twice for determinism.",
+    E5, "5/C14", "E5")
+chk("C15","checked build as monitor (unsafe-precondition / debug_assert / arrayvec capacity / bounds checks live in every exploration) plus exhaustive enumeration of the capacity corners: mobility catalogue and its complete 1-edit neighbourhood, all game lengths around the interface limit x listed search depths, self-play to its end",
+    "Every member of the mobility catalogue (218-move record, 9-queen positions, super-legal border-queen family) and of its 1-edit neighbourhood is generated in both modes for both sides; games of 1,2,397..400 plies through the real `position` command followed by unlimited and depth 1/34/64/255 searches; the real self-play loop with 1/50(/1000) polls per move until it ends.",
+    "assertions exist at every unsafe site (read: get_unchecked, push_unchecked, unwrap_unchecked, new_unsafe, add_unsafe); legal material assumed to give <= 256 pseudo-legal moves (measured maximum reported)", "5/C15", "E1+E6")
+chk("C19","operation-sequence exploration through the real uci_talk: every prior command word ending in ucinewgame vs a fresh engine (byte-identical transcripts); schedule exploration (E5) for schedule independence; second-process repetition",
+    "For 8 families every prior word of length 1 (and 2) over {position q; go depth e; wait} followed by ucinewgame and each of ~36 (root, depth) searches must print exactly the fresh engine's transcript; the search thread's lines are identical under every explored interleaving; fresh sessions repeat identically in-process and in a second process.",
+    E5+"; machine load / memory layout only as a two-point check", "5/C19", "E3+E5")
+
 def main():
     import os
     checks=[C[i] for i in IDS if i in C and os.environ.get('ONLY','')=='' or i in os.environ.get('ONLY','').split(',') and i in C]
@@ -78,7 +92,8 @@ def main():
         dict(name="E1+E2",path="/verif/harness/src/explore.rs",serves_properties=["C01","C02","C03","C04","C05","C09","C10","C11","C12","C16","C20"],kind_free_text="explicit-state enumeration of closed position universes and layered BFS with the real push as transition function, lock-step against the reference model"),
         dict(name="E3",path="/verif/harness/src/props/e3.rs",serves_properties=["C06","C08","C18"],kind_free_text="operation-sequence explorer over search histories sharing one transposition table (DFS with table clones == stateless re-execution)"),
         dict(name="E4",path="/verif/harness/src/props/c07.rs",serves_properties=["C07"],kind_free_text="stop-point enumerator: one execution per node-entry poll index"),
-        dict(name="E6",path="/verif/harness/src/props/c17.rs",serves_properties=["C12","C17","C05"],kind_free_text="exhaustive input-neighbourhood enumeration"),
+        dict(name="E5",path="/verif/harness/src/sched.rs",serves_properties=["C13","C14","C19"],kind_free_text="hand-rolled CHESS-style stateless explorer: real threads serialised by a baton, iterative deviation bounding with a poll-is-yield fairness model, deterministic replay"),
+        dict(name="E6",path="/verif/harness/src/props/c17.rs",serves_properties=["C05","C12","C13","C15","C17"],kind_free_text="exhaustive input-neighbourhood enumeration"),
       ],
       checks=checks, not_applicable=na,
       notes="See DESIGN.md. ./check <ID> [--tier quick|thorough] [--replay file]; exit 0 held / 1 VIOLATION / 2 machinery error. known_findings.json lists recorded and fixed findings.")
